@@ -520,13 +520,12 @@ func (g *c08Prog) num() string {
 
 // token-level mutation of a program text
 func c08MutateProgram(r *hx.Rng, src string) string {
-	toks, _ := syntax.VerifLex([]byte(src), 1<<20)
 	// recover token boundaries by re-scanning: find each token's text in order
 	var spans [][2]int
 	pos := 0
 	b := []byte(src)
 	for pos < len(b) {
-		name, n := syntax.VerifNextToken(b[pos:])
+		name, n := c08NextToken(b[pos:])
 		if n == 0 {
 			break
 		}
@@ -535,7 +534,6 @@ func c08MutateProgram(r *hx.Rng, src string) string {
 		}
 		pos += n
 	}
-	_ = toks
 	if len(spans) == 0 {
 		return src + hx.Pick(r, c08Junk)
 	}
@@ -589,7 +587,7 @@ func c08StringSweep(src string, bodies []string, emit func(string)) {
 	b := []byte(src)
 	pos := 0
 	for pos < len(b) {
-		name, n := syntax.VerifNextToken(b[pos:])
+		name, n := c08NextToken(b[pos:])
 		if n == 0 {
 			break
 		}
@@ -607,7 +605,7 @@ func c08NumberSweep(src string, lits []string, emit func(string)) {
 	b := []byte(src)
 	pos := 0
 	for pos < len(b) {
-		name, n := syntax.VerifNextToken(b[pos:])
+		name, n := c08NextToken(b[pos:])
 		if n == 0 {
 			break
 		}
@@ -625,7 +623,7 @@ func c08TruncSweep(src string, emit func(string)) {
 	b := []byte(src)
 	pos := 0
 	for pos < len(b) {
-		_, n := syntax.VerifNextToken(b[pos:])
+		_, n := c08NextToken(b[pos:])
 		if n == 0 {
 			break
 		}
@@ -728,7 +726,7 @@ func c08GenPrograms(tier string, r *hx.Rng) {
 		b := []byte(c08Skeleton)
 		pos := 0
 		for pos < len(b) {
-			name, n := syntax.VerifNextToken(b[pos:])
+			name, n := c08NextToken(b[pos:])
 			if n == 0 {
 				break
 			}
@@ -760,6 +758,19 @@ func c08GenPrograms(tier string, r *hx.Rng) {
 		`{"a":1,"a":2}`, "[[[[[[1]]]]]]", "[1 2]", "self.x", "A.b", "A", "x = 1", "call A()", "1 2", "1,", "# c", "# c\n1", "1 # c", "\xff", "nul", "truex", "-", "- 1", "1e5e5"} {
 		emitV(s)
 		emitM(s)
+	}
+	// declarations named like builtin types, keywords and other declarations
+	for _, nm := range append([]string{"txt", "S", "ST0", "PIPE", "x", "_", "_a", "A.b"}, c08Keywords...) {
+		emitM("filetype " + nm + ";\n")
+		emitM("filetype txt;\nfiletype " + nm + ";\nfiletype " + nm + ";\n")
+		emitM("struct " + nm + "(\n    int a,\n)\n")
+		emitM("struct S(\n    int " + nm + ",\n    int " + nm + ",\n)\n")
+		emitM("stage " + nm + "(\n    in  int x,\n    out int y,\n    src py \"x\",\n)\n")
+		emitM("stage A(\n    in  int " + nm + ",\n    out int " + nm + ",\n    src py \"x\",\n)\n")
+		emitM("stage A(\n    in  " + nm + " x,\n    out " + nm + "[] y,\n    src py \"x\",\n)\n")
+		emitM("pipeline " + nm + "(\n    in  int x,\n    out int y,\n)\n{\n    return (\n        y = self.x,\n    )\n}\n")
+		emitM("stage A(\n    in  int x,\n    out int y,\n    src py \"x\",\n)\npipeline P(\n    in  int x,\n    out int y,\n)\n{\n    call A as " + nm + "(\n        x = self.x,\n    )\n    return (\n        y = " + nm + ".y,\n    )\n}\n")
+		emitM("call " + nm + "(\n    x = 1,\n)\n")
 	}
 	g := &c08Prog{r: r, hot: 25}
 	for i := 0; i < 500*mul; i++ {
@@ -1013,7 +1024,7 @@ func c08GenIncludes(tier string, r *hx.Rng) {
 // ------------------------------------------------------------------ implementation observations
 
 func c08TokObs(b []byte) string {
-	name, n := syntax.VerifNextToken(b)
+	name, n := c08NextToken(b)
 	val := b[:n]
 	switch name {
 	case "NUM_INT":
@@ -1079,7 +1090,23 @@ func c08SrcObs(cmd string) string {
 	}
 }
 
-func c08LexObs(src []byte) string {
+// c08NextToken is nextToken under recover: the generators and the
+// observation must survive a panicking implementation.
+func c08NextToken(b []byte) (name string, n int) {
+	defer func() {
+		if recover() != nil {
+			name, n = "PANIC", 0
+		}
+	}()
+	return syntax.VerifNextToken(b)
+}
+
+func c08LexObs(src []byte) (obs string) {
+	defer func() {
+		if recover() != nil {
+			obs = "PANIC"
+		}
+	}()
 	toks, ncomments := syntax.VerifLex(src, 1<<20)
 	var sb strings.Builder
 	fmt.Fprintf(&sb, "%d", ncomments)
@@ -1328,6 +1355,8 @@ func c08OracleChild(args []string) {
 			fs := strings.Fields(obs)
 			n, _ := strconv.Atoi(fs[1])
 			switch {
+			case fs[0] == "PANIC":
+				fmt.Fprintf(w, "FAIL panic_nextToken nextToken panics on %q\n", string(b))
 			case strings.HasSuffix(obs, " P"):
 				fmt.Fprintf(w, "FAIL token_converter_panics_%s the lexer produced a %s token %q that its converter cannot take\n", fs[0], fs[0], string(b[:n]))
 			case n > len(b):
@@ -1421,23 +1450,23 @@ func c08Scaling(sh *c08Shape, n1, n2 int, dir string) string {
 		}
 		fl, t1, a1 := measure(s1)
 		if fl != "" {
-			return strings.Replace(fl, "FAIL timeout_", "FAIL superlinear_time_"+c08Family(sh.name)+"_", 1)
+			return strings.Replace(fl, "FAIL timeout_", "FAIL superlinear_"+c08Family(sh.name)+"_", 1)
 		}
 		fl, t2, a2 := measure(s2)
 		if fl != "" {
-			return strings.Replace(fl, "FAIL timeout_", "FAIL superlinear_time_"+c08Family(sh.name)+"_", 1)
+			return strings.Replace(fl, "FAIL timeout_", "FAIL superlinear_"+c08Family(sh.name)+"_", 1)
 		}
 		if t1 < time.Millisecond {
 			t1 = time.Millisecond
 		}
 		if t2 > 300*time.Millisecond && float64(t2) > 3*ratio*float64(t1) {
-			return fmt.Sprintf("FAIL superlinear_time_%s_%s %d bytes: %v, %d bytes: %v", c08Family(sh.name), e.name, len(s1), t1, len(s2), t2)
+			return fmt.Sprintf("FAIL superlinear_%s_%s time: %d bytes: %v, %d bytes: %v", c08Family(sh.name), e.name, len(s1), t1, len(s2), t2)
 		}
 		if a1 < 1<<20 {
 			a1 = 1 << 20
 		}
 		if a2 > 64<<20 && float64(a2) > 3*ratio*float64(a1) {
-			return fmt.Sprintf("FAIL superlinear_alloc_%s_%s %d bytes: %d B allocated, %d bytes: %d B allocated", c08Family(sh.name), e.name, len(s1), a1, len(s2), a2)
+			return fmt.Sprintf("FAIL superlinear_%s_%s allocation: %d bytes: %d B allocated, %d bytes: %d B allocated", c08Family(sh.name), e.name, len(s1), a1, len(s2), a2)
 		}
 	}
 	return "ok"
